@@ -269,7 +269,8 @@ def run(ctx):
     # every ordered pair of conditions in two successive statements (list names are derived per use: dedupe / naming across statements)
     for ci in range(len(xconds)):
         for cj in range(len(xconds)):
-            if ci == cj or (quick and (ci * 7 + cj) % 2):
+            # (the quick tier takes every other pair, and every pair that involves one of the multi-name / re-ordered conditions: the last 12)
+            if ci == cj or (quick and (ci * 7 + cj) % 2 and max(ci, cj) < len(xconds) - 12):
                 continue
             for vendor in ("huawei", "arista", "cumulus"):
                 observe("pair", vendor, [([xconds[ci]], [], "allow"), ([xconds[cj]], [], "allow")])
